@@ -10,6 +10,11 @@ sys.path.insert(0, HERE)
 CHECKS = {}   # filled by vf/props modules that exist: id -> (category, text, note, technique, design_ref)
 
 TABLE = {
+    "C04": ("exploration",
+            "The real KernelDG.get_critical_path() result (marked lines and per-line CP latencies) is judged on the graph it was computed on by an own longest-path computation: reported total between the longest chain with and without the last instruction's independent load, never below any single instruction latency, marked lines pairwise linked, per-line values are the chain's edge weights; workload = C03's synthetic and curated kernels plus the shipped corpus on the models of its ISA.",
+            "Trusted: vf/ref_graph.py; the graph itself is taken as observed (C03/C06 judge its edges).",
+            "runtime monitoring: result vs own longest-path DP over the observed DAG",
+            "C04"),
     "C03": ("exploration",
             "The edge set and latency attributes of the dependency graph built by the real pipeline (parser, ISA semantics, arch semantics, KernelDG) are compared with a reference read-after-write relation computed on the generator's AST (architectural register families, flag operands, write-back, zero idioms, default destination rule), for synthetic ISA databases with random roles on synthetic latency models and for a curated real vocabulary on shipped models, with and without flag dependencies.",
             "Trusted: vf/depgen.py (R-deps), the register family table of C12, the curated role table; flag roles of real instructions are those the shipped ISA database declares.",
